@@ -392,6 +392,17 @@ func (dec *Decoder) Skip() {
 	dec.head++
 }
 
+// own decides whether data, a slice of the read buffer, may be handed out as it
+// is. When it ends exactly at the end of the buffered bytes of a reader-backed
+// decoder, the very next read refills the buffer in place and would overwrite
+// it before the caller has used it, so a copy is returned instead.
+func (dec *Decoder) own(data []byte) ([]byte, bool) {
+	if dec.reader != nil && dec.head == dec.tail {
+		return append(make([]byte, 0, len(data)), data...), true
+	}
+	return data, false
+}
+
 func (dec *Decoder) next(n int) (data []byte, safe bool) {
 	if (dec.head == dec.tail) && !dec.loadMore() {
 		return nil, true
@@ -400,7 +411,7 @@ func (dec *Decoder) next(n int) (data []byte, safe bool) {
 	if remain >= n {
 		data = dec.buf[dec.head : dec.head+n]
 		dec.head += n
-		return data, false
+		return dec.own(data)
 	}
 	safe = true
 	data = make([]byte, remain, n)
@@ -463,7 +474,7 @@ func (dec *Decoder) until(delim byte) (data []byte, safe bool) {
 	if i := bytes.IndexByte(dec.buf[dec.head:dec.tail], delim); i >= 0 {
 		data = dec.buf[dec.head : dec.head+i]
 		dec.head += i + 1
-		return data, false
+		return dec.own(data)
 	}
 	safe = true
 	for {
